@@ -130,9 +130,19 @@ def main():
             if what == "simulate":
                 vp = {"patient_number": 5, "visit_type": "random", "first_visit_mean": 0.0, "first_visit_std": 0.4, "time_follow_up_mean": 4,
                       "time_follow_up_std": 0.5, "distance_visit_mean": 1.0, "distance_visit_std": 0.2, "min_spacing_between_visits": 0.01}
+                import pandas as pd
+
+                if job.get("sim_design") == "table":
+                    # visits given as a table: string identifiers in inclusion order (not sorted), unsorted rows
+                    ids_ = ["sub-%s" % x for x in ("k", "b", "z", "a", "m", "c", "y", "d")]
+                    rows_ = [(s_, round(60.0 + 3.0 * j_ + 1.5 * v_, 2)) for j_, s_ in enumerate(ids_) for v_ in (2, 0, 1)]
+                    vp = {"visit_type": "dataframe", "df_visits": pd.DataFrame(rows_, columns=["ID", "TIME"])}
                 res = m.simulate(algorithm="simulate", features=list(m.features), visit_parameters=vp, seed=job["seed"])
                 d = res.data.to_dataframe()
-                return {"final": hashlib.sha256(d.to_csv(float_format="%.17g").encode()).hexdigest()[:16], "trace": []}
+                ipd = res.individual_parameters
+                ipd = ipd if isinstance(ipd, pd.DataFrame) else ipd.to_dataframe() if hasattr(ipd, "to_dataframe") else None
+                extra = "" if ipd is None else ipd.to_csv(float_format="%.17g")
+                return {"final": hashlib.sha256((d.to_csv(float_format="%.17g") + extra).encode()).hexdigest()[:16], "trace": []}
             ip = m.personalize(gen.to_dataset(df_new, events=events), what, seed=job["seed"], progress_bar=False, **job["settings"])
             ids, t = ip.to_pytorch()
             return {"final": dig_tensors(dict(t)) + ":" + ",".join(ids), "trace": []}
